@@ -513,6 +513,15 @@ class Interp:
                 self.fault('dirty')
                 if self.hooks is not None and hasattr(self.hooks, 'on_dirty'):
                     self.hooks.on_dirty(self, tid)
+        elif kind == 'perturb':
+            tid = ev['target'].lstrip('@')
+            a = self.store.get(tid)
+            if isinstance(a, np.ndarray) and a.flags.writeable and a.size:
+                g = np.random.Generator(np.random.PCG64(int(ev.get('seed', 0))))
+                a[...] = a + ev.get('scale', 1.0) * g.normal(size=a.shape)
+                self.fault('caller_write')
+                if self.hooks is not None and hasattr(self.hooks, 'on_dirty'):
+                    self.hooks.on_dirty(self, tid)
         elif kind == 'freeze':
             n = 0
             for t in ev['targets']:
